@@ -363,9 +363,14 @@ class IMAPConnection:
                 prev_cmd = current_command.set(cmd)
                 try:
                     if isinstance(cmd, AuthenticateCommand):
-                        creds = await self.authenticate(state, cmd.mech_name)
-                        response = await self._exec(
-                            state.do_authenticate(cmd, creds))
+                        refused = state.check_command(cmd)
+                        if refused is not None:
+                            response = refused
+                        else:
+                            creds = await self.authenticate(
+                                state, cmd.mech_name)
+                            response = await self._exec(
+                                state.do_authenticate(cmd, creds))
                     elif isinstance(cmd, IdleCommand):
                         response = await self.idle(state, cmd)
                     else:
